@@ -22,20 +22,20 @@ import (
 
 // config is the flag set of `crossplane core init` (cmd/crossplane/core/init.go initCommand).
 type config struct {
-	Namespace        string   `json:"namespace"`
-	ServiceAccount   string   `json:"serviceAccount"`
-	WebhookSvc       string   `json:"webhookService"`
-	WebhookSvcNS     string   `json:"webhookServiceNamespace"`
-	WebhookPort      int32    `json:"webhookPort"`
-	CASecret         string   `json:"caSecret"`
-	ServerSecret     string   `json:"serverSecret"`
-	ClientSecret     string   `json:"clientSecret"`
-	ESSServerSecret  string   `json:"essServerSecret,omitempty"`
-	Providers        []string `json:"providers,omitempty"`
-	Configurations   []string `json:"configurations,omitempty"`
-	Functions        []string `json:"functions,omitempty"`
-	ConversionCRD    bool     `json:"conversionCRD,omitempty"` // CRD directory = repo CRDs + one synthetic CRD with webhook conversion
-	crdDir, whDir    string
+	Namespace       string   `json:"namespace"`
+	ServiceAccount  string   `json:"serviceAccount"`
+	WebhookSvc      string   `json:"webhookService"`
+	WebhookSvcNS    string   `json:"webhookServiceNamespace"`
+	WebhookPort     int32    `json:"webhookPort"`
+	CASecret        string   `json:"caSecret"`
+	ServerSecret    string   `json:"serverSecret"`
+	ClientSecret    string   `json:"clientSecret"`
+	ESSServerSecret string   `json:"essServerSecret,omitempty"`
+	Providers       []string `json:"providers,omitempty"`
+	Configurations  []string `json:"configurations,omitempty"`
+	Functions       []string `json:"functions,omitempty"`
+	ConversionCRD   bool     `json:"conversionCRD,omitempty"` // CRD directory = repo CRDs + one synthetic CRD with webhook conversion
+	crdDir, whDir   string
 }
 
 // the two flag sets used: the Helm chart's values and a second, unrelated naming.
